@@ -117,7 +117,37 @@ func (hb HTTPClient) PresentationDefinition(ctx context.Context, presentationDef
 		return nil, errors.Join(ErrBadGateway, err)
 	}
 
-	return &presentationDefinition, hb.doRequest(ctx, request, &presentationDefinition)
+	if err = hb.doRequest(ctx, request, &presentationDefinition); err != nil {
+		return nil, err
+	}
+	// The definition comes from a remote server and is not validated against the Presentation Exchange JSON schema here.
+	// JSON null entries leave nil pointers in it, which are dereferenced when the definition is matched against a wallet.
+	if err = checkNoNullEntries(presentationDefinition); err != nil {
+		return nil, errors.Join(ErrBadGateway, err)
+	}
+	return &presentationDefinition, nil
+}
+
+// checkNoNullEntries returns an error if the presentation definition contains a null input descriptor or submission requirement.
+func checkNoNullEntries(definition pe.PresentationDefinition) error {
+	for _, descriptor := range definition.InputDescriptors {
+		if descriptor == nil {
+			return errors.New("invalid presentation definition: input_descriptors contains null")
+		}
+	}
+	var check func(requirements []*pe.SubmissionRequirement) error
+	check = func(requirements []*pe.SubmissionRequirement) error {
+		for _, requirement := range requirements {
+			if requirement == nil {
+				return errors.New("invalid presentation definition: submission_requirements contains null")
+			}
+			if err := check(requirement.FromNested); err != nil {
+				return err
+			}
+		}
+		return nil
+	}
+	return check(definition.SubmissionRequirements)
 }
 
 // RequestObjectByGet retrieves the Authorization Request Object from the requestURI using the GET method
